@@ -1014,6 +1014,16 @@ var scenarioTable = map[string]func(s *sc){
 		s.timeout(3)
 		s.flush(any)
 	},
+	// C18: weights 1,0,1,1,1 - n1 has no voting weight but it has its place in the committee's order: it leads view 1.  View 0 is
+	// lost, everybody times out, n1 is elected and its proposal is committed (n4 is Byzantine and silent).
+	"member_without_weight_leads_its_view": func(s *sc) {
+		s.startNodes()
+		s.dropAll(any)
+		for _, i := range []int{0, 1, 2, 3} {
+			s.timeout(i)
+		}
+		s.flush(any)
+	},
 	// lagging node (all honest): n3 receives the traffic of height 2 first (future cache), then height 1; the
 	// commit of height 1 starts round 2, whose drain commits height 2 in the middle (H11 in situ)
 	"lagging_node_drains_cached_height": func(s *sc) {
@@ -1060,6 +1070,8 @@ func scenarioByz(name string) []int {
 		"byzantine_commit_with_share_copied_from_a_genuine_commit", "vote_with_genuine_proof_and_another_block_to_a_leader_holding_the_proposal",
 		"commit_broadcast_fails_when_becoming_prepared_then_timeout":
 		return []int{3}
+	case "member_without_weight_leads_its_view":
+		return []int{4}
 	case "fork_via_proof_with_prepares_of_older_view", "heavy_pair_vote_with_unvalidated_block_but_no_proof", "round_of_another_instance_replayed_to_a_lagging_member",
 		"prepare_of_the_coming_view_reaches_the_next_leader_before_its_election":
 		return []int{2}
@@ -1070,6 +1082,9 @@ func scenarioByz(name string) []int {
 func scenarioWeights(name string) []uint64 {
 	if name == "heavy_pair_vote_with_unvalidated_block_but_no_proof" || name == "prepare_of_the_coming_view_reaches_the_next_leader_before_its_election" {
 		return []uint64{1, 4, 3, 2}
+	}
+	if name == "member_without_weight_leads_its_view" {
+		return []uint64{1, 0, 1, 1, 1}
 	}
 	return []uint64{1, 1, 1, 1}
 }
